@@ -56,7 +56,7 @@ class StateMeta(type):
         name: str,
         bases: tuple[type, ...],
         namespace: dict[str, Any],
-        type_parameters: dict[str, Any] | None = None,
+        type_parameters: dict[Any, Any] | None = None,
         **kwargs: Any,
     ) -> Any:
         state_type = type.__new__(
@@ -158,13 +158,15 @@ class State(metaclass=StateMeta):
         if cached := _types_cache.get((cls, type_arguments)):
             return cached
 
-        type_parameters: dict[str, Any] = {
-            parameter.__name__: argument
+        type_parameters: dict[Any, Any] = {
+            key: argument
             for (parameter, argument) in zip(
                 cls.__type_params__ or (),
                 type_arguments or (),
                 strict=False,
             )
+            # keep the variable itself as well, names may repeat between generic types
+            for key in (parameter.__name__, parameter)
         }
 
         parameter_names: str = ",".join(
